@@ -48,6 +48,7 @@ MAP = [  # subject substring -> properties whose quick check must catch the reve
     ('Python binding of CPCA declared a fifth', ['C20']),
     ('IVectorAppend, setIVectorValue and getIVectorValue', ['C20']),
     ('Python binding of setTensorValue', ['C20']),
+    ('a seeded generator whose state reached zero', ['C06']),
 ]
 
 
